@@ -33,6 +33,7 @@ HEXLEN = z3.Function("hexlen", I, I)
 POW2 = z3.Function("pow2", I, I)
 REP = z3.Function("rep", I, I, Bytes)
 SHR = z3.Function("shr", I, I, I)
+MOD = z3.Function("imod", I, I, I)
 
 # integer lists
 LLEN = z3.Function("llen", IntList, I)
@@ -272,10 +273,12 @@ class SInt(SVal):
         t = self._b(o)
         if t is None:
             return NotImplemented
+        if isinstance(o, SInt):
+            return SInt(MOD(self.t, t))
         return SInt(self.t % t)
 
     def __rmod__(self, o):
-        return SInt(self._b(o) % self.t)
+        return SInt(MOD(self._b(o), self.t))
 
     def __pow__(self, o):
         if _isint(o) and 0 <= o <= 8:
@@ -381,6 +384,21 @@ def cat(*parts):
         return b""
     if not _anysym(*parts):
         return b"".join(bytes(p) for p in parts)
+    # flatten nested concatenations (canonical right-nested form: associativity by construction)
+    flat = []
+
+    def fl(t):
+        if z3.is_app(t) and t.decl().name() == "cat" and t.num_args() == 2:
+            fl(t.arg(0))
+            fl(t.arg(1))
+        else:
+            flat.append(SBytes(t))
+    for p in parts:
+        if isinstance(p, SBytes):
+            fl(p.t)
+        else:
+            flat.append(p)
+    parts = flat
     # fold concrete neighbours
     out = []
     for p in parts:
@@ -482,6 +500,22 @@ def shr(x, k):
     if not _anysym(x, k):
         return x >> k if k >= 0 else x
     return SInt(SHR(T(x), T(k)))
+
+
+def imod(x, m):
+    """x mod m for a positive modulus m (Python %): an uninterpreted function with range / small-argument axioms when
+    the modulus is symbolic (z3's own mod by a variable is non-linear)"""
+    if not _anysym(x, m):
+        return x % m if m > 0 else 0
+    if not isinstance(m, SVal):
+        return SInt(T(x) % m)
+    return SInt(MOD(T(x), T(m)))
+
+
+def imod_uf(x, m):
+    if not _anysym(x, m):
+        return x % m if m > 0 else 0
+    return SInt(MOD(T(x), T(m)))
 
 
 def imin(a, b):
@@ -752,6 +786,19 @@ def _(x, a, b):
     return Implies_(eq(a, b), eq(shr(x, a), shr(x, b)))
 
 
+@axiom("shr_bound", ["int", "int", "int"], lambda x, k, b: [[shr(x, k), pow2(b)]], domain=lambda x, k, b: 0 <= k <= b <= 300 and 0 <= x < 2 ** b)
+def _(x, k, b):
+    return Implies_(And_(0 <= x, x < pow2(b), 0 <= k, k <= b), shr(x, k) < pow2(b - k))
+
+
+@axiom("imod_range", ["int", "int"], lambda x, m: [imod_uf(x, m)], domain=lambda x, m: m >= 1)
+def _(x, m):
+    return Implies_(m >= 1, And_(0 <= imod_uf(x, m), imod_uf(x, m) < m,
+                                 Implies_(And_(0 <= x, x < m), eq(imod_uf(x, m), x)),
+                                 Implies_(And_(m <= x, x < 2 * m), eq(imod_uf(x, m), x - m)),
+                                 Implies_(And_(-m <= x, x < 0), eq(imod_uf(x, m), x + m))))
+
+
 @axiom("shr_def", ["int", "int"], lambda x, k: [shr(x, k)], domain=lambda x, k: 0 <= k <= 600)
 def _(x, k):
     return Implies_(k >= 0, And_(eq(shr(x, k), x // pow2(k)), Implies_(x >= 0, And_(shr(x, k) >= 0, shr(x, k) <= x))))
@@ -768,6 +815,7 @@ def _(v):
     return Implies_(v >= 0, And_(bitlen(v) >= 0, v < pow2(bitlen(v)),
                                  Implies_(v >= 1, And_(bitlen(v) >= 1, pow2(bitlen(v) - 1) <= v)),
                                  Iff_(eq(v, 0), eq(bitlen(v), 0)),
+                                 Implies_(v >= 1, pow2(bitlen(v)) <= 2 * v),
                                  Implies_(v >= 1, eq(bytelen(v), (bitlen(v) + 7) // 8)),
                                  Implies_(v >= 1, eq(hexlen(v), (bitlen(v) + 3) // 4))))
 
@@ -787,11 +835,18 @@ def pow2_facts(t):
     return z3.And(*[z3.Implies(t == c, POW2(t) == 2 ** c) for c in list(range(0, 17)) + [24, 32, 40, 48, 56, 64]])
 
 
-HEAVY = {"pow2_mono", "be_msb", "bytelen_mono", "shr_def"}     # quadratic multi-patterns / nonlinear bodies
+HEAVY = {"pow2_mono", "be_msb", "bytelen_mono", "shr_def", "shr_bound"}     # quadratic multi-patterns / nonlinear bodies
+
+# optional theories: only obligations of contracts that ask for them get these axioms (keeps every other query small)
+GROUPS = {"shift": {"shr_zero", "shr_shr", "shr_cong", "shr_def", "shr_small", "shr_bound", "be_prefix", "imod_range"}}
+_OPTIONAL = set().union(*GROUPS.values())
 
 
-def base_axioms(heavy=True):
-    return _beq_axioms() + [a.term() for a in AXIOMS if heavy or a.name not in HEAVY]
+def base_axioms(heavy=True, theories=()):
+    on = set()
+    for t in theories:
+        on |= GROUPS.get(t, set())
+    return _beq_axioms() + [a.term() for a in AXIOMS if (heavy or a.name not in HEAVY) and (a.name not in _OPTIONAL or a.name in on)]
 
 
 # ----------------------------------------------------------------------------
